@@ -8,8 +8,10 @@ readme = os.path.join(SEED, "README.md")
 text = open(readme).read()
 head = text.split("| seed |")[0]
 tail = ""
-if "\nRound 1 (`-a`)" in text:
-    tail = "\nRound 1 (`-a`)" + text.split("\nRound 1 (`-a`)", 1)[1]
+for marker in ("\nRounds: 1 (`-a`)", "\nRound 1 (`-a`)"):
+    if marker in text:
+        tail = marker + text.split(marker, 1)[1]
+        break
 rows = ["| seed | property | change | needs | quick checks that report it | history |", "|---|---|---|---|---|---|"]
 n = caught_own = 0
 for d in sorted(os.listdir(SEED)):
